@@ -308,6 +308,11 @@ Definition h_collect_fees (w : hworld) (b : nat) : res hworld :=
                     (set_hb_feev (hb_feev hb + grp_n - f1)
                     (set_hb_vault v3 (set_hb_b bk' hb)))))).
 
+(* lending_pool_collect_bank_fees called with a fee ATA that is not the canonical token account of the global fee
+   wallet for the bank's mint: always refused, whatever the fee parameters and the buckets *)
+Definition h_collect_fees_foreign_ata (w : hworld) (b : nat) : res hworld :=
+  let* _ := nth_bank w b in Err (E E_InvalidFeeAta).
+
 (* lending_pool_handle_bankruptcy (signer entitled: admin / risk admin / permissionless flag) *)
 Definition h_bankruptcy (w : hworld) (a b : nat) : res hworld :=
   let* hb := nth_bank w b in let* ac := nth_acct w a in
